@@ -301,16 +301,35 @@ theorem C14_detached_written_or_prefix (P : Prims) (pieces : Bytes → List Byte
 
 /-- the armor encoder stream is itself a reporting writer: its `Write` (and its
     `Close`) returns an error iff an underlying write failed during the call —
-    exactly one, the first; no error of `spaceAndOutputBuffer` is dropped -/
-theorem C14_armor_writer_reports (a : FArm) (b : Bytes) :
-    (a.write b).2.w.faults = a.w.faults + (if (a.write b).1 then 0 else 1) ∧
-    a.close.2.w.faults = a.w.faults + (if a.close.1 then 0 else 1) := by
-  refine ⟨?_, farm_close_faults a⟩
-  cases h : a.write b with
-  | mk ok a' =>
-    cases ok with
-    | true => simpa using farm_flt.ok a b a' h
-    | false => simpa using farm_flt.fail a b a' h
+    exactly one, the first; no error of `spaceAndOutputBuffer` is dropped — or
+    the call was refused because an EARLIER call failed (`a.failed`, `s.err` of
+    fix 5ad1caa: then no underlying write happens at all).  `a.EncOk`: the BaseX
+    encoder inside is healthy and writes into a buffer that never fails — true of
+    `FArm.init` and kept by every call (second theorem), so this covers every
+    state a program can reach. -/
+theorem C14_armor_writer_reports (a : FArm) (b : Bytes) (he : a.EncOk) :
+    (a.write b).2.w.faults = a.w.faults + (if (a.write b).1 || a.failed then 0 else 1) ∧
+    a.close.2.w.faults = a.w.faults + (if a.close.1 || a.failed then 0 else 1) := by
+  have h1 := farm_write_faults a b
+  have h2 := farm_close_faults a
+  rw [(farm_encOk_write a b he).1] at h1
+  rw [(farm_encOk_close a he).1] at h2
+  simpa using And.intro h1 h2
+
+theorem C14_armor_writer_encoder_intact (par : Armor.Params) (hdr ftr : Bytes) (w : Wr) (a : FArm) (b : Bytes) :
+    (FArm.init par hdr ftr w).2.EncOk ∧ (a.EncOk → (a.write b).2.EncOk ∧ a.close.2.EncOk) :=
+  ⟨farm_encOk_init par hdr ftr w, fun h => ⟨(farm_encOk_write a b h).2, (farm_encOk_close a h).2⟩⟩
+
+/-- in ANY state of the armor stream (no assumption on its encoder): a call that
+    reports success has seen no failing underlying write, and the count of
+    failed underlying writes never goes down -/
+theorem C14_armor_writer_ok_means_no_fault (a : FArm) (b : Bytes) :
+    ((a.write b).1 = true → (a.write b).2.w.faults = a.w.faults) ∧
+    (a.close.1 = true → a.close.2.w.faults = a.w.faults) ∧
+    a.w.faults ≤ (a.write b).2.w.faults ∧ a.w.faults ≤ a.close.2.w.faults := by
+  have h1 := farm_write_faults a b
+  have h2 := farm_close_faults a
+  refine ⟨fun h => by rw [h1, h]; simp, fun h => by rw [h2, h]; simp, by omega, by omega⟩
 
 /-- hence every armored packet stream reports: a `Write` (a `Close` through
     `closeForwarder`) that returns no error has seen no failing underlying write -/
